@@ -161,6 +161,30 @@ func hostile(rng *rand.Rand, g *fixture.Geo, r *swarm.Remote) hmsg {
 		}
 		return hmsg{b, "allowed-fast around the piece count, then true metadata"}
 	}
+	if !r.Tr.T.InfoComplete() && rng.IntN(10) == 0 {
+		// the most voted size goes up and then down again (every extended handshake is a vote, also a repeated
+		// one), and blocks follow whose indexes fit the larger size only
+		big := int64([]int64{100000, 16384 * 9, 1 << 20}[rng.IntN(3)])
+		small := int64([]int64{20000, 16385, 40000}[rng.IntN(3)])
+		var b []byte
+		vote := func(sz int64, n int) {
+			for k := 0; k < n; k++ {
+				e := swarm.StdExt0(0, 0)
+				e.MetadataSize = &sz
+				b = append(b, refwire.Encode(refwire.Msg{Kind: refwire.KExtended, Sub: 0, Data: e.Payload()})...)
+			}
+		}
+		vote(big, 2+rng.IntN(2))
+		vote(small, 4+rng.IntN(3))
+		for k := 0; k < 2+rng.IntN(3); k++ {
+			m := refwire.Meta{Type: 1, Piece: int64(2 + rng.IntN(6)), Data: make([]byte, 16384)}
+			if rng.IntN(2) == 0 {
+				m.TotalSize = &small
+			}
+			b = append(b, refwire.Encode(refwire.Msg{Kind: refwire.KExtended, Sub: extID("ut_metadata", 2), Data: m.Payload()})...)
+		}
+		return hmsg{b, "metadata size votes up then down, then blocks beyond the smaller size"}
+	}
 	if !r.Tr.T.InfoComplete() && rng.IntN(8) == 0 {
 		// while the metadata is unknown: a size vote, a complete set of garbage blocks for it (the hash cannot
 		// match), and then stray blocks with and without total_size, for indices inside and beyond that size
@@ -594,6 +618,50 @@ func history(t *testing.T, c *vk.C, rng *rand.Rand, i int) map[string]int {
 					h = connect()
 					sw.Cut()
 					maxFrame = 0
+				}
+			}
+			// size votes from a succession of short-lived connections: the most voted size goes up, then down,
+			// and then blocks arrive whose indexes only fit the larger size
+			if !tr.T.InfoComplete() && rng.IntN(10) == 0 {
+				big := int64([]int64{100000, 16384 * 9, 1 << 20}[rng.IntN(3)])
+				small := int64([]int64{20000, 16385, 40000}[rng.IntN(3)])
+				voteConn := func(sz int64) {
+					hx := tr.Connect(swarm.RemoteOpts{Fast: rng.IntN(2) == 0, Ext: true, Incoming: rng.IntN(2) == 0})
+					e := swarm.StdExt0(0, 0)
+					e.MetadataSize = &sz
+					hx.SendRaw(refwire.Encode(refwire.Msg{Kind: refwire.KExtended, Sub: 0, Data: e.Payload()}))
+					sw.Cut()
+					if rng.IntN(2) == 0 {
+						hx.Close()
+						sw.Cut()
+					}
+				}
+				for k := 0; k < 2+rng.IntN(2); k++ {
+					voteConn(big)
+				}
+				for k := 0; k < 5+rng.IntN(3); k++ {
+					voteConn(small)
+				}
+				var b []byte
+				for k := 0; k < 2+rng.IntN(3); k++ {
+					m := refwire.Meta{Type: 1, Piece: int64(2 + rng.IntN(6)), Data: make([]byte, 16384)}
+					if rng.IntN(3) != 0 {
+						m.TotalSize = &small
+					}
+					id := byte(2)
+					if e := h.StExt(); e != nil && e.M != nil {
+						if v, ok := e.M["ut_metadata"]; ok && v > 0 && v < 256 {
+							id = byte(v)
+						}
+					}
+					b = append(b, refwire.Encode(refwire.Msg{Kind: refwire.KExtended, Sub: id, Data: m.Payload()})...)
+				}
+				h.SendRaw(b)
+				sw.Cut()
+				sw.Act("size votes up to %d then down to %d from short-lived connections, then blocks beyond the smaller size", big, small)
+				st["size_votes_up_then_down"]++
+				if !tr.LoopAlive("C05", "after-size-votes") {
+					return
 				}
 			}
 			// abrupt ends: the peer vanishes, possibly in the middle of a frame or right after connecting
